@@ -138,6 +138,29 @@ def runValid (c : CaseBlock) : IO Unit := do
     | _ => diffs := diffs ++ ["noser"]
     report c diffs sig mons
 
+/-- how many states the decoder can complete from these bytes before it stops (all of them, or up to the
+    first state that does not decode): what a streaming decoder may have built when it gives up -/
+def statesDecodable (bs : Bytes) : Nat :=
+  match Codec.decVarint bs with
+  | none => 0
+  | some (_, r) => match Codec.decF64 r with
+    | none => 0
+    | some (_, r) => match Codec.decVarint r with
+      | none => 0
+      | some (_, r) => match Codec.decF64 r with
+        | none => 0
+        | some (_, r) => match Codec.decVarint r with
+          | none => 0
+          | some (n, r) =>
+            let rec go (fuel : Nat) (k : Nat) (r : Bytes) : Nat :=
+              match fuel with
+              | 0 => k
+              | fuel + 1 => if k ≥ n then k else
+                match Codec.decState r with
+                | none => k
+                | some (_, r') => go fuel (k + 1) r'
+            go (r.length / 16 + 1) 0 r
+
 /-- `hostile` / `bomb` cases: stage-by-stage agreement of `from_str` with the model, monitor on
     what was accepted -/
 def runHostile (c : CaseBlock) : IO Unit := do
@@ -181,6 +204,10 @@ def runHostile (c : CaseBlock) : IO Unit := do
   | some ("FAIL" :: why) => mons := mons ++ [s!"after this string a valid machine string no longer parses as before: {String.intercalate " " why}"]
   | _ => pure ()
   let acc := match obs with | .accepted _ => "accept" | .rejected => "reject" | .panicked => "panic"
+  -- for the allocation bound of the check: states a streaming decoder can have built from the bytes read
+  match raw with
+  | some rb => IO.println s!"states {c.id} {statesDecodable rb}"
+  | none => pure ()
   report c diffs [kindTag c, st, acc] mons
 
 /-- `v1` cases: the legacy parser -/
